@@ -168,12 +168,16 @@ RSRows(A) == {i \in Rows(A) : RSHasNeg(A, i)}
 \* (k, 1)) on which every other row using the column depends strongly; every point with a strong
 \* connection interpolates from at least one C point
 CFSanityOK(A, eps, P, Near(_, _, _)) ==
-    /\ P.n = A.n /\ WellFormed(P) /\ NoDup(P)
-    /\ \A k \in 0..(P.m - 1) :
-         \E c \in Rows(A) :
-            /\ RowLen(P, c) = 1 /\ P.col[Ptr(P, c) + 1] = k /\ Near(P, {Ptr(P, c) + 1}, ROne)
-            /\ \A i \in Rows(A) \ {c} : k \in RowCols(P, i) => RSStrongDef(A, eps, i, c)
-    /\ \A i \in RSRows(A) : RowLen(P, i) >= 1
+    LET am == [i \in Rows(A) |-> RSAmin(A, i)]
+        dep(i, c) == i # c /\ am[i] < 0 /\ \E p \in RowPos(A, i) : A.col[p] = c /\ RSStrongVal(eps, am[i], A.val[p])
+        \* candidate C points: rows that are exactly (k, 1)
+        cand == [k \in 0..(P.m - 1) |-> {c \in Rows(A) : RowLen(P, c) = 1 /\ P.col[Ptr(P, c) + 1] = k}]
+        users == [k \in 0..(P.m - 1) |-> {i \in Rows(A) : k \in RowCols(P, i)}]
+    IN  /\ P.n = A.n /\ WellFormed(P) /\ NoDup(P)
+        /\ \A k \in 0..(P.m - 1) :
+             \E c \in cand[k] : /\ Near(P, {Ptr(P, c) + 1}, ROne)
+                                /\ \A i \in users[k] \ {c} : dep(i, c)
+        /\ \A i \in Rows(A) : am[i] < 0 => RowLen(P, i) >= 1
 \* empty_level exactly when no row has a negative off-diagonal
 RSEmptyOK(A, empty) == empty = (RSRows(A) = {})
 
@@ -184,9 +188,11 @@ CFBucketsOK(A, s) ==
 CFSortedOK(A, s) ==          \* the not yet processed positions are ordered by lambda
     (s.oob \/ s.done) \/ \A x, y \in 0..s.top : x < y => s.lam[s.i2n[x]] <= s.lam[s.i2n[y]]
 CFInternalOK(A, eps, cf) ==
-    /\ \A i \in Rows(A) : cf[i] \in {"C", "F"}
-    /\ \A i \in Rows(A) : (cf[i] = "F" /\ RSHasNeg(A, i)) => \E c \in Rows(A) : cf[c] = "C" /\ RSStrongDef(A, eps, i, c)
-    /\ \A i \in Rows(A) : ~RSHasNeg(A, i) => cf[i] = "F"
+    LET am == [i \in Rows(A) |-> RSAmin(A, i)]
+    IN  /\ \A i \in Rows(A) : cf[i] \in {"C", "F"}
+        /\ \A i \in Rows(A) : (cf[i] = "F" /\ am[i] < 0) =>
+               \E p \in RowPos(A, i) : A.col[p] # i /\ cf[A.col[p]] = "C" /\ RSStrongVal(eps, am[i], A.val[p])
+        /\ \A i \in Rows(A) : ~(am[i] < 0) => cf[i] = "F"
 \* "the remaining weights are rescaled so that the total sum remains unchanged"
 TruncKeepsSumOK(A, Pt, Pn) ==
     \A i \in Rows(A) : REq(RSumSet(LAMBDA p : Pt.val[p], RowPos(Pt, i)), RSumSet(LAMBDA p : Pn.val[p], RowPos(Pn, i)))
